@@ -85,6 +85,18 @@ def chunks(seq: list, size: int):
         yield seq[i:i + size]
 
 
+def _guarded(gen, viols, harness_errors):
+    """Yields from the parallel map; if the machinery itself breaks down (a checker worker killed, for
+    instance by a tree whose real-backend runs fork without end) after violations have already been
+    found, the verdict stands and the breakdown is recorded as a note instead of replacing it."""
+    try:
+        yield from gen
+    except HarnessError as e:
+        if not viols:
+            raise
+        harness_errors.append(f'exploration ended early: {e}')
+
+
 def run_e2_property(prop: str, tier: str, seed: int, configs: Iterable, *, serial_configs: Iterable = (),
                     e3_configs: Iterable = (), e3_max_exec: Optional[int] = 20000, e3_max_dev: Optional[int] = None,
                     real_cases: Iterable = (), hash_slices: Iterable = (), barrier_cases: Iterable = (),
@@ -126,7 +138,7 @@ def run_e2_property(prop: str, tier: str, seed: int, configs: Iterable, *, seria
     t_start = _time.time()
     stop_after = float(_os.environ.get('VERIF_STOP_AFTER_VIOLATION', '420') or 420)
     stopped_early = False
-    results = pmap(_work, items)
+    results = _guarded(pmap(_work, items), viols, harness_errors)
     for kind, outs in results:
         if viols and _time.time() - t_start > stop_after:
             # the verdict is already "violated"; a tree on which the code under test spins in every
